@@ -257,6 +257,15 @@ func runReplicas(r *hx.R, n int, w *hx.W, _ []string) error {
 					action = "remove_contracts"
 				}
 				add("sudo-"+action, sign(0, 400_000, &sudotypes.MsgEditSudoers{Action: action, Contracts: cs, Sender: addr(0).String()}))
+				if r.Chance(1, 3) {
+					// the sudo root edits the oracle whitelist: several pairs, one of them listed twice (neither ValidateBasic nor
+					// Params.Validate objects); the stored repeated field must come out in one order on every replica
+					wl := []asset.Pair{"unibi:uusd", "ubtc:uusd", "ueth:uusd", "uatom:uusd", "uusdc:uusd", "uusdt:uusd"}
+					dup := wl[2+r.Pick(4)]
+					wl = append(wl[:3], append([]asset.Pair{dup}, wl[3:]...)...)
+					add("oracle-edit-whitelist-dup", sign(0, 400_000, &oracletypes.MsgEditOracleParams{Sender: addr(0).String(),
+						Params: &oracletypes.OracleParamsMsg{Whitelist: wl}}))
+				}
 			case 2: // bank
 				add("bank-send", sign(3, 300_000, banktypes.NewMsgSend(addr(3), addr(r.Pick(3)), sdk.NewCoins(sdk.NewInt64Coin("unibi", r.Range(1, 9999))))))
 			case 3, 4: // eth: deploy a generated multi-frame program (transfers to fresh accounts, creates, self-destructs)
